@@ -17,7 +17,7 @@ RULE = ("document pairs of every type x type-selection grid {none, --X-TYPE, --X
         "suggests, or an alias pair is compared, and the documents differ; distinct = distinct argv + documents")
 ASSUMPTIONS = ["the library composition mirrors the documented public API; it is validated byte-for-byte against main() on the plain cases",
                "stderr is not compared"]
-MINIMUMS = {"quick": {"cli_vs_library": 3000, "alias_pairs": 3000, "explicit_type_overrides_name:first": 300,
+MINIMUMS = {"quick": {"cli_vs_library": 3000, "alias_pairs": 1500, "explicit_type_overrides_name:first": 300,
                       "explicit_type_overrides_name:second": 300},
             "thorough": {"cli_vs_library": 60000, "alias_pairs": 30000, "explicit_type_overrides_name:first": 6000,
                          "explicit_type_overrides_name:second": 6000}}
